@@ -185,6 +185,7 @@ def build_foreign(trees, known):
     _build_records(trees, known)
     _build_pure_props(trees, known)
     _build_param_readonly(trees)
+    _build_moddicts(trees)
     ATTR_MODULES.clear()
     ATTR_FOREIGN.clear()
     ATTR_SELF.clear()
@@ -232,6 +233,31 @@ def build_foreign(trees, known):
                             m._sa_home = (modname, frozenset(needs))
                             STATICS[(st.name, m.name)] = m
     return {k: v for k, v in out.items() if seen.get(k) == 1}
+
+
+MODDICT_NAMES = set()      # module-level names that are, in every module of the package that binds them, bound once to a dict display / comprehension
+
+
+def _build_moddicts(trees):
+    MODDICT_NAMES.clear()
+    good, bad = set(), set()
+    for t in trees.values():
+        seen = {}
+        for st in t.body:
+            for n in ast.walk(st):
+                if isinstance(n, ast.Name) and isinstance(n.ctx, (ast.Store, ast.Del)):
+                    seen[n.id] = seen.get(n.id, 0) + 1
+        for st in t.body:
+            if isinstance(st, ast.Assign) and len(st.targets) == 1 and isinstance(st.targets[0], ast.Name):
+                nm = st.targets[0].id
+                v = st.value
+                isd = isinstance(v, (ast.Dict, ast.DictComp)) or (isinstance(v, ast.Call) and isinstance(v.func, ast.Name) and v.func.id == "dict")
+                (good if isd and seen.get(nm) == 1 else bad).add(nm)
+        for n in ast.walk(t):
+            # rebinding / in-place change from inside a function: not a constant table
+            if isinstance(n, ast.Global):
+                bad.update(n.names)
+    MODDICT_NAMES.update(good - bad)
 
 
 def _build_pure_props(trees, known):
@@ -1435,7 +1461,7 @@ class FuncCanon(object):
         changed = False
         for blk in _all_blocks(self.fn):
             top = blk is self.fn.body
-            if self.prop(blk) or self.getsetattr(blk) or self.constfold(blk) or self.revdisplay(blk) or self.lencomp(blk) or self.star(blk) or self.callsel(blk) or self.tuplepush(blk) or self.sumloop(blk) or self.listcomp(blk) or self.unroll(blk) or self.listbuild(blk) or self.copyinout(blk) or self.copyin(blk) or self.copyprop(blk) or self.augform(blk) or self.copyback(blk) or self.lastof(blk) or self.nonetest(blk) or self.derived(blk) or self.initsort(blk) or self.lockwith(blk) or self.flagloop(blk) or self.ifflag(blk) or self.flageq(blk) or self.thread(blk) or self.deadstore(blk) or self.kw(blk) or self.split(blk) or self.retsplit(blk) or self.unindex(blk) or self.yieldsplit(blk) or self.forelse(blk) or self.dowhile(blk) or self.withsink(blk) or self.testsplit(blk) or self.rot(blk) or self.brk(blk, top) or self.wtop(blk) or self.ifs(blk) or self.sink(blk) or self.unpack(blk) or self.fwd(blk):
+            if self.prop(blk) or self.getsetattr(blk) or self.constfold(blk) or self.revdisplay(blk) or self.lencomp(blk) or self.star(blk) or self.callsel(blk) or self.tuplepush(blk) or self.sumloop(blk) or self.listcomp(blk) or self.unroll(blk) or self.listbuild(blk) or self.copyinout(blk) or self.copyin(blk) or self.copyprop(blk) or self.augform(blk) or self.copyback(blk) or self.lastof(blk) or self.nonetest(blk) or self.derived(blk) or self.initsort(blk) or self.lockwith(blk) or self.suppress(blk) or self.hasattr_eafp(blk) or self.dictget(blk) or self.contguard(blk) or self.flagloop(blk) or self.ifflag(blk) or self.flageq(blk) or self.thread(blk) or self.deadstore(blk) or self.kw(blk) or self.split(blk) or self.retsplit(blk) or self.unindex(blk) or self.yieldsplit(blk) or self.forelse(blk) or self.dowhile(blk) or self.withsink(blk) or self.testsplit(blk) or self.rot(blk) or self.brk(blk, top) or self.wtop(blk) or self.ifs(blk) or self.sink(blk) or self.unpack(blk) or self.fwd(blk):
                 return True
         return changed
 
@@ -1913,6 +1939,30 @@ class FuncCanon(object):
         return False
 
     # -- COPYBACK --------------------------------------------------------------------------------------------------
+    def _inside_try(self, blk):
+        """Is the statement list `blk` (transitively) inside a `try` statement of this function?"""
+        def walk(node, in_try):
+            for field in ("body", "orelse", "finalbody"):
+                b = getattr(node, field, None)
+                if isinstance(b, list):
+                    it = in_try or isinstance(node, ast.Try)
+                    if b is blk:
+                        return it
+                    for st in b:
+                        r = walk(st, it)
+                        if r is not None:
+                            return r
+            for h in getattr(node, "handlers", []) or []:
+                if h.body is blk:
+                    return True
+                for st in h.body:
+                    r = walk(st, True)
+                    if r is not None:
+                        return r
+            return None
+        r = walk(self.fn, False)
+        return True if r is None else r
+
     def copyback(self, blk):
         """`a, t, c = f()` ; .. ; `v = t`  (t a temporary bound there only; v untouched in between; every other read of t comes later in this block,
         before v is bound again)   ->   `a, v, c = f()` and the reads of t read v."""
@@ -1944,7 +1994,15 @@ class FuncCanon(object):
                             ok_ids |= set(id(n) for n in ast.walk(blk[end].value))        # the value side of the re-binding statement still sees the copy
                         others = [n for n in self.loads.get(t, []) if n is not c.value]
                         if any(id(n) not in ok_ids for n in others):
-                            break
+                            # reads of t between its binding and the copy may read v as well, provided nothing can see that v was bound early: no
+                            # break / continue in between (they would skip the copy), and no enclosing `try` (a handler could read the old v)
+                            mid_ids = set(id(n) for s_ in blk[i + 1:j] for n in ast.walk(s_))
+                            if any(id(n) not in ok_ids and id(n) not in mid_ids for n in others):
+                                break
+                            if any(isinstance(n, (ast.Break, ast.Continue)) for s_ in blk[i + 1:j] for n in ast.walk(s_)):
+                                break
+                            if self._inside_try(blk):
+                                break
                         tn.id = v
                         for n in others:
                             n.id = v
@@ -1952,7 +2010,9 @@ class FuncCanon(object):
                         self.bump("COPYBACK")
                         return True
                     if any(isinstance(n, ast.Name) and n.id == t and isinstance(n.ctx, ast.Load) for n in ast.walk(c)) and not (isinstance(c, ast.Assign) and isinstance(c.value, ast.Name)):
-                        break
+                        if any(isinstance(n, ast.Name) and n.id == t and isinstance(n.ctx, (ast.Store, ast.Del)) for n in ast.walk(c)):
+                            break
+                        continue          # a read of t before the copy: decided at the copy (relaxed conditions)
         return False
 
     # -- AUGFORM ---------------------------------------------------------------------------------------------------
@@ -2394,6 +2454,99 @@ class FuncCanon(object):
         return None
 
     # -- LOCKWITH --------------------------------------------------------------------------------------------------
+    def contguard(self, blk):
+        """directly in a loop body: `if A: continue` ; REST (up to the end of the body)   ->   `if not A: REST`
+        (`continue` = skip the rest of this body; falling off its end does the same)."""
+        if not any(isinstance(n, (ast.While, ast.For, ast.AsyncFor)) and n.body is blk for n in ast.walk(self.fn)):
+            return False
+        for i, st in enumerate(blk):
+            if isinstance(st, ast.If) and not st.orelse and len(st.body) == 1 and isinstance(st.body[0], ast.Continue) and i + 1 < len(blk):
+                rest = blk[i + 1:]
+                st.test = negate(st.test)
+                st.body = rest
+                del blk[i + 1:]
+                self.bump("CONTGUARD")
+                return True
+        return False
+
+    def dictget(self, blk):
+        """`try: v = D[k]` / `except KeyError: v = None`   ->   `v = D.get(k)`   for a module-level constant dict D (MODDICT_NAMES: a real dict, no
+        __missing__) and a plain name k: the subscript is the only thing in the try body that can raise."""
+        for i, st in enumerate(blk):
+            if not (isinstance(st, ast.Try) and not st.finalbody and not st.orelse and len(st.handlers) == 1 and len(st.body) == 1):
+                continue
+            h = st.handlers[0]
+            if not (isinstance(h.type, ast.Name) and h.type.id == "KeyError" and h.name is None and not self.stores.get("KeyError") and h.body):
+                continue
+            b, hb = st.body[0], (h.body[0] if len(h.body) == 1 else None)
+            if not (isinstance(b, ast.Assign) and len(b.targets) == 1 and isinstance(b.targets[0], ast.Name) and isinstance(b.value, ast.Subscript) and isinstance(b.value.slice, ast.Name)):
+                continue
+            as_get = isinstance(hb, ast.Assign) and len(hb.targets) == 1 and isinstance(hb.targets[0], ast.Name) and hb.targets[0].id == b.targets[0].id \
+                and isinstance(hb.value, ast.Constant) and hb.value.value is None
+            D = b.value.value
+            nm = D.id if isinstance(D, ast.Name) else (D.attr if isinstance(D, ast.Attribute) and isinstance(D.value, ast.Name) and not self.stores.get(D.value.id) else None)
+            if nm is None or nm not in MODDICT_NAMES or self.stores.get(nm) or b.value.slice.id == b.targets[0].id:
+                continue
+            if as_get:
+                new = ast.Assign(targets=b.targets, value=ast.Call(func=ast.Attribute(value=D, attr="get", ctx=ast.Load()), args=[b.value.slice], keywords=[]))
+            else:
+                # any other handler: `if k in D: v = D[k]` / `else: H`
+                import copy as _copy
+                new = ast.If(test=ast.Compare(left=_copy.deepcopy(b.value.slice), ops=[ast.In()], comparators=[_copy.deepcopy(D)]), body=[b], orelse=h.body)
+            ast.copy_location(new, st)
+            ast.fix_missing_locations(new)
+            blk[i] = new
+            self.bump("DICTGET")
+            return True
+        return False
+
+    def hasattr_eafp(self, blk):
+        """`try: v = x.a` / `except AttributeError: H` [`else: E`]   ->   `if hasattr(x, 'a'): v = x.a; E` / `else: H`
+        (hasattr IS "getattr and catch AttributeError"; x is a plain name, so the only thing the try body can raise is that look-up)."""
+        for i, st in enumerate(blk):
+            if not (isinstance(st, ast.Try) and not st.finalbody and len(st.handlers) == 1 and len(st.body) == 1):
+                continue
+            h = st.handlers[0]
+            if not (isinstance(h.type, ast.Name) and h.type.id == "AttributeError" and h.name is None and not self.stores.get("AttributeError") and not self.stores.get("hasattr")):
+                continue
+            b = st.body[0]
+            if not (isinstance(b, ast.Assign) and len(b.targets) == 1 and isinstance(b.targets[0], ast.Name) and isinstance(b.value, ast.Attribute)
+                    and isinstance(b.value.value, ast.Name) and b.targets[0].id != b.value.value.id):
+                continue
+            test = ast.Call(func=ast.Name(id="hasattr", ctx=ast.Load()), args=[ast.Name(id=b.value.value.id, ctx=ast.Load()), ast.Constant(value=b.value.attr)], keywords=[])
+            new = ast.If(test=test, body=[b] + st.orelse, orelse=h.body)
+            ast.copy_location(new, st)
+            ast.fix_missing_locations(new)
+            blk[i] = new
+            self.bump("HASATTR")
+            return True
+        return False
+
+    def suppress(self, blk):
+        """`with suppress(Exception):` / `with suppress(BaseException): B`   ->   `try: B except <the class>: pass`
+        Exact for these two classes only: contextlib.suppress also swallows an exception *group* made of suppressed classes, which an
+        `except KeyError` would not catch - a group is itself an Exception, so for Exception / BaseException the two agree."""
+        for i, st in enumerate(blk):
+            if not (isinstance(st, ast.With) and len(st.items) == 1 and st.items[0].optional_vars is None):
+                continue
+            c = st.items[0].context_expr
+            if not (isinstance(c, ast.Call) and not c.keywords and len(c.args) == 1 and isinstance(c.args[0], ast.Name) and c.args[0].id in ("Exception", "BaseException")):
+                continue
+            f = c.func
+            ok = (isinstance(f, ast.Name) and f.id == "suppress" and not self.stores.get("suppress")) or \
+                 (isinstance(f, ast.Attribute) and f.attr == "suppress" and isinstance(f.value, ast.Name) and f.value.id == "contextlib" and not self.stores.get("contextlib"))
+            if not ok or self.stores.get(c.args[0].id):
+                continue
+            h = ast.ExceptHandler(type=None if c.args[0].id == "BaseException" else ast.Name(id="Exception", ctx=ast.Load()), name=None, body=[ast.Pass()])
+            new = ast.Try(body=st.body, handlers=[h], orelse=[], finalbody=[])
+            ast.copy_location(new, st)
+            ast.copy_location(h, st)
+            ast.fix_missing_locations(new)
+            blk[i] = new
+            self.bump("SUPPRESS")
+            return True
+        return False
+
     def lockwith(self, blk):
         """`L.acquire()` ; `try: B finally: L.release()`   ->   `with L: B`    (`await L.acquire()` -> `async with L`)"""
         for i in range(len(blk) - 1):
